@@ -85,7 +85,7 @@ theorem split_payload (α bs : Bytes) (hα : α.length < 4294967296) :
     * the two Go parsers report the same structure (`ParserAgrees`; container.Parser does not read the
       EXIF/XMP chunks that follow a still's image — it only announces them through its flags).
 
-    `Accepted s` (decidable, `Webp.Proofs.MuxAccepted.accepted`) is: `validate s` passes, and three
+    `Accepted s` (decidable, `Webp.Proofs.MuxAccepted.accepted`) is: `validate s` passes, and two
     conjuncts that `validate` does **not** enforce.  Each excluded region was run on the real
     `mux.Muxer` + both Go parsers (harness suite `mux` and one-off probes, see the report):
 
@@ -94,16 +94,20 @@ theorem split_payload (α bs : Bytes) (hα : α.length < 4294967296) :
        version 0).  Outside: `validate` skips frames whose size it cannot read, so `AddFrame({1,2,3})`
        assembles a `VP8 ` chunk that no reader accepts (garbage in, garbage out — such data is not a
        VP8/VP8L bitstream, i.e. outside the property's quantifier; the suite counts these).
-    2. the exact RIFF size (`exactRiffSize`, computed without truncation) is ≤ 2^32 − 10.  Outside: sizes
-       are computed with `uint32(len(..))`; above 2^32 − 1 the extended path returns an error (clean);
-       between 2^32 − 9 and 2^32 − 1 container.Parser's `MaxChunkPayload` rejects what the muxer wrote;
-       a single payload ≥ 4 GiB is silently truncated (needs ≥ 4 GiB of input; see the report).
-    3. each metadata blob ≤ 100 MB (`maxMetadataSize`).  Outside: `AddChunk` refuses it,
-       `SetICCProfile/SetEXIF/SetXMP` do not, and both parsers then reject the file (see the report).
+    2. extended format only: the exact RIFF size (`exactRiffSize`, computed without truncation) is
+       ≤ 2^32 − 10.  (For the simple format this follows from `validate`'s frame-size limit 2^32 − 22.)
+       Outside: above 2^32 − 1 `Assemble` returns an error before writing (`rejects_too_large`) unless a
+       single animation frame is within ~34 bytes of 4 GiB, whose `uint32(16 + subSize)` wraps — probed:
+       one 4 294 967 274-byte frame with `Duration: 1` is accepted and written with ANMF size 2 and RIFF
+       size 46 (corrupt); between 2^32 − 9 and 2^32 − 1 container.Parser's `MaxChunkPayload` check rejects
+       what the muxer wrote.
 
-    Three further conjuncts were needed on the tree as first modelled; the real muxer violated the
-    property there, it was repaired (commits 217045d, 73510c8, dac085e) and `validate`/`needsVP8X` now
-    enforce them — see `pinned_*` below for the pinned counterexamples. -/
+    Five further conjuncts were needed on the tree as first modelled; the real muxer violated the
+    property there, it was repaired (commits 217045d, 73510c8, dac085e, b6500d8, faa5452) and
+    `validate`/`needsVP8X` now enforce them: explicit canvas kept for stills, canvas area < 2^30, no ALPH
+    in front of VP8L (see `pinned_*` below for the pinned counterexamples), metadata blobs ≤ 100 MB and
+    frame data ≤ 2^32 − 22 bytes (too large for kernel evaluation; probed on the Go side by the suite's
+    `mux-probe` and a one-off 4 GiB probe). -/
 theorem mux_demux_state (s : MuxState) (inv : Inv s) (h : Accepted s) :
     ∃ b, assemble s = .ok b ∧
       Webp.Spec.Riff.wellFormed b = .ok (expL s) ∧ LayoutAgrees s (expL s) ∧
@@ -152,10 +156,25 @@ theorem validate_before_write (s : MuxState) (e : Mux.Err) (h : validate s = .er
   rw [h]
   rfl
 
+/-- The other half of "rejects with an error": an extended file whose RIFF payload would not fit 32 bits
+    is refused by `assembleExtended`'s own check, before anything is written — as long as no single
+    frame's chunk size wraps (`frameLen` is the untruncated size of the frame's chunk(s)). -/
+theorem rejects_too_large (s : MuxState) (hv : validate s = .ok ()) (hx : needsVP8X s = true)
+    (hf : ∀ f ∈ s.frames, frameLen (isAnimated s) f.data < 4294967296)
+    (hbig : exactRiffSize s > 4294967295) : assemble s = .err .other := by
+  have vf := Webp.Proofs.MuxValidate.validate_facts hv
+  have hm : Parser.maxMetadataSize = 104857600 := rfl
+  have hopt : ∀ o : Option Bytes, (o.getD []).length ≤ Parser.maxMetadataSize → optLen o < 4294967296 := by
+    intro o h
+    cases o with
+    | none => simp [optLen]
+    | some d => simp only [Option.getD_some] at h; simp only [optLen, padLen]; omega
+  exact assemble_too_large s hv hx (hopt _ vf.icc) (hopt _ vf.exif) (hopt _ vf.xmp) hf hbig
+
 /-! ### C15 (muxer half): metadata -/
 
 /-- A blob set under ICCP / EXIF / XMP (any bytes, including chunk-like ones; empty non-nil blobs too;
-    ≤ 100 MB) is returned byte for byte by the demuxer (`iccData`/`exifData`/`xmpData`, i.e. `GetChunk`),
+    `validate` refuses blobs above 100 MB) is returned byte for byte by the demuxer (`iccData`/`exifData`/`xmpData`, i.e. `GetChunk`),
     absent blobs are reported absent, and the VP8X flags announce exactly the blobs that are present;
     container.Parser lists the ICCP chunk always and EXIF/XMP for animations. -/
 theorem metadata_readback (ops : List MuxOp) (h : Accepted (run ops)) :
